@@ -23,8 +23,13 @@ def py_out(t):
     return Fraction(n, d)
 
 
+POP = []   # the shared population of a history: objects that live across its queries
+
+
 def mk_h(items):
     from dyce import H
+    if isinstance(items, dict):
+        return POP[items["ref"]]
     return H({py_out(o): c for o, c in items})
 
 
@@ -67,6 +72,18 @@ def answer(q):
         if k == "eq":
             a, b = mk_h(q["a"]), mk_h(q["b"])
             return {"ok": [a == b, a != b, hash(a) == hash(b)]}
+        if k == "hasheq":      # hashing BEFORE any comparison / reduction of these objects
+            a, b = mk_h(q["a"]), mk_h(q["b"])
+            return {"ok": hash(a) == hash(b)}
+        if k == "setlen":
+            return {"ok": len({mk_h(x) for x in q["objs"]})}
+        if k == "dictget":
+            d = {mk_h(x): i for i, x in enumerate(q["objs"])}
+            return {"ok": [d.get(mk_h(x), -1) for x in q["probe"]]}
+        if k == "homog":
+            return {"ok": P(*[mk_h(x) for x in q["objs"]]).is_homogeneous()}
+        if k == "items":
+            return {"ok": [[t_out(o), c] for o, c in mk_h(q["a"]).items()]}
         if k == "lowest":
             a = mk_h(q["a"])
             if q.get("twice"):
@@ -83,6 +100,9 @@ def main():
     repo = os.environ.get("DYCE_REPO", "/repo")
     assert os.path.realpath(dyce.__file__).startswith(os.path.realpath(repo) + os.sep)
     queries = json.load(sys.stdin)
+    if isinstance(queries, dict):
+        POP.extend(mk_h(o) for o in queries["objects"])
+        queries = queries["queries"]
     print(json.dumps([answer(q) for q in queries]))
 
 
